@@ -81,7 +81,7 @@ class _Gen:
             return r.choices(POOL, POOL_W)[0]
         if self.hot and self.chance(0.40):
             return r.choice(self.hot)
-        if u < 0.50 and self.sure:
+        if u < 0.45 and self.sure:
             return r.choice(self.sure)
         if u < 0.80 and self.seen:
             return r.choice(self.seen)
@@ -114,7 +114,7 @@ class _Gen:
         if not self.in_nested and self.chance(0.03):
             self.note_assign("n", depth)
             return "n = %d" % r.choice([1, 2])
-        if (depth > self.base and not self.in_nested and self.chance(0.30)):
+        if (depth > self.base and not self.in_nested and self.chance(0.42)):
             cands = [x for x in self.sure if x in POOL]
             if cands:
                 v = r.choice(cands)
@@ -238,7 +238,7 @@ class _Gen:
         # frequently: the same variable gets an int in one branch and a float (or
         # nothing) in the other
         lines = ["if %s:" % self.cond()]
-        if self.chance(0.45) and not self.in_nested:
+        if self.chance(0.5) and not self.in_nested:
             v = self.pick_target()
             a, b = r.choice([("1", "1.5"), ("1.5", "2"), ("1", "2"), ("1", None), ("1.5", "1"), ("1", "1.5")])
             saved = list(self.sure)
